@@ -560,6 +560,64 @@ func genRequeue(r *vh.Rng) (jobctl.History, bool) {
 	return h, budget >= 0 && deliveries > int(budget)
 }
 
+// ---------- resume while the job is STILL Aborting ----------
+// A ResumeJob command (or a policy answering ResumeJob) processed while the phase is Aborting, at a moment
+// when no pod of the job is terminating: the job owns no pod, only retained Succeeded / Failed pods, or pods
+// whose deletion events were already handled (gone); sometimes a live or a terminating pod remains.  The
+// retry count is around maxRetry - 1, so that the Restarting state's maxRetry check decides the next step.
+func genAbortingResume(r *vh.Rng) jobctl.History {
+	var s jobctl.Spec
+	nt := r.Range(1, 2)
+	for i := 0; i < nt; i++ {
+		t := jobctl.Task{Name: int64(i + 1), Replicas: int64(r.Range(1, 2)), Cpu: 100}
+		if r.Chance(1, 2) {
+			t.Min = i64p(int64(r.Range(0, int(t.Replicas))))
+		}
+		s.Tasks = append(s.Tasks, t)
+		s.Min += t.Replicas
+	}
+	s.MaxRetry = int64(vh.Pick(r, []int{1, 2, 3}))
+	viaPolicy := r.Chance(1, 4)
+	if viaPolicy {
+		s.Policies = []jobctl.Policy{{Events: []int64{6}, Action: 8}} // Unknown event -> ResumeJob
+	}
+	retry := s.MaxRetry - 1 + int64(vh.Pick(r, []int{0, 0, 0, -1, 1}))
+	if retry < 0 {
+		retry = 0
+	}
+	h := jobctl.History{Spec: s, Status: jobctl.Status{Phase: 2, Retry: retry, Version: int64(r.Intn(2)), Min: s.Min, TscNil: r.Chance(1, 2)}}
+	kind := r.Intn(5) // 0 no pods, 1/2 only finished pods, 3 a terminating pod, 4 a live pod
+	for _, t := range s.Tasks {
+		for i := int64(0); i < t.Replicas; i++ {
+			switch kind {
+			case 1, 2:
+				h.Pods = append(h.Pods, jobctl.Pod{Task: t.Name, Idx: i, Phase: int64(vh.Pick(r, []int{2, 3}))})
+			case 3:
+				h.Pods = append(h.Pods, jobctl.Pod{Task: t.Name, Idx: i, Phase: 1, Del: i == 0})
+			case 4:
+				h.Pods = append(h.Pods, jobctl.Pod{Task: t.Name, Idx: i, Phase: int64(vh.Pick(r, []int{0, 1}))})
+			}
+		}
+	}
+	if r.Chance(3, 4) {
+		h.Pg = i64p(int64(vh.Pick(r, []int{1, 2, 3, 3})))
+	}
+	resume := jobctl.Req{Event: 9, Action: i64p(8), UidMatch: int64(vh.Pick(r, []int{1, 2})), Version: h.Status.Version}
+	if viaPolicy {
+		resume = jobctl.Req{Event: 6, UidMatch: 1, Version: h.Status.Version + 1}
+	}
+	if kind == 3 && r.Chance(1, 2) {
+		// the delete event of the terminating pod is handled before the resume
+		h.Ops = append(h.Ops, jobctl.Op{Code: 4, T: h.Pods[0].Task, I: h.Pods[0].Idx}, jobctl.Op{Code: 7})
+	}
+	h.Ops = append(h.Ops, jobctl.Op{Code: 1, Req: resume}, jobctl.Op{Code: 7}, jobctl.Op{Code: 8}, jobctl.Op{Code: 6})
+	// what follows: the Restarting / Pending job is reconciled again
+	for k := r.Range(1, 3); k > 0; k-- {
+		h.Ops = append(h.Ops, jobctl.Op{Code: 1, Req: jobctl.Req{Event: 8, UidMatch: 1, Version: h.Status.Version + 1}}, jobctl.Op{Code: 7}, jobctl.Op{Code: 8})
+	}
+	return h
+}
+
 func descHistory(h jobctl.History) any {
 	return map[string]any{"tasks": len(h.Spec.Tasks), "minAvailable": h.Spec.Min, "maxRetry": h.Spec.MaxRetry,
 		"initial_phase": h.Status.Phase, "initial_pods": len(h.Pods), "ops": len(h.Ops), "maxRequeueNum": h.MaxRequeueP1 - 1}
@@ -604,5 +662,13 @@ func gen(rng *vh.Rng, n int, emit func(id string, sel int, in []int64, kind stri
 		w := &jobctl.W{}
 		w.History(h)
 		emit(fmt.Sprintf("hist-requeue-%d", i), 1, w.T, "history/requeue", nt, descHistory(h))
+	}
+	// a resume while the job is still Aborting and nothing is terminating
+	for i := 0; i < n/4+1; i++ {
+		r := rng.Fork()
+		h := genAbortingResume(r)
+		w := &jobctl.W{}
+		w.History(h)
+		emit(fmt.Sprintf("hist-abortresume-%d", i), 1, w.T, "history/aborting-resume", true, descHistory(h))
 	}
 }
